@@ -1,3 +1,248 @@
-import Model.Rotation
+import Lemmas.RotationHist
+/-! # C12 — log rotation keeps the byte stream intact across size-bounded files
+
+Property theorems only.  The executable model is `Model/Rotation.lean` (namespace `Rot`): the directory of the log
+file as `Nat → Option Bytes` (0 = `path`, i = `path-i`), `Rot.writeStep` = one pass from the label `retry:` of
+`Rotator.Write`, `Rot.iterate` = the retry loop (the driver `drv_c12` runs `Rot.iterate cfg 64`, `Rot.close`,
+`Rot.reopen`, `Rot.new` against the Go code after every operation), `Rot.rotateFiles` = the literal rename chain of
+`rotate()`.  A state is *in step* (`Rot.Track`) when the size counter equals the length of the current file whenever
+the handle is open; every state reachable from `New` is (`reachable_in_step`).
+
+All theorems quantify over every configuration (`MaxSize`, `MaxBackups` any naturals), every initial directory
+(pre-existing current file and backups, gaps, files beyond `MaxBackups`, files larger than `MaxSize`) and every history
+of `Write`/`Close`/re-open/`Sync`.  Not proved here: that concurrent writers never interleave bytes — the model is
+sequential (each method runs under the mutex); see the assumptions of the check. -/
 namespace C12
+open Rot
+
+/-! ## reachable states -/
+
+/-- every state reachable from `New` on any directory by any history has its size counter in step with the file -/
+theorem reachable_in_step (cfg : Cfg) (f : Files) (ops : List Op) : Track (run cfg (fresh f) ops) :=
+  track_run cfg _ ops (track_fresh f)
+
+/-! ## every Write returns in bounded time -/
+
+/-- clause "every Write returns in bounded time": from *any* state (in step or not) the retry loop finishes within two
+    passes, i.e. after at most one rotation -/
+theorem write_terminates (cfg : Cfg) (s : St) (b : Bytes) : ∃ n, n ≤ 2 ∧ ∃ s', iterate cfg n s b = .done s' :=
+  ⟨2, Nat.le_refl 2, write cfg s b, iterate_eq_write cfg s b 0⟩
+
+/-- … and a larger bound on the passes changes nothing: the loop the driver runs (`iterate cfg 64`) is `write` -/
+theorem write_loop_bounded (cfg : Cfg) (s : St) (b : Bytes) (n : Nat) : iterate cfg (n + 2) s b = .done (write cfg s b) :=
+  iterate_eq_write cfg s b n
+
+/-! ## the rename chain -/
+
+/-- mechanism "backup renaming chain and oldest-file removal": the loop of `os.Rename` calls (missing sources ignored)
+    after removing `path-MaxBackups` is exactly the index shift — the current file becomes backup 1, backup i becomes
+    backup i+1 (gaps stay gaps), the oldest backup disappears, indexes above `MaxBackups` are untouched, and no current
+    file is left; with `MaxBackups = 0` the current file is simply removed -/
+theorem rename_chain_is_shift (cfg : Cfg) (f : Files) (j : Nat) :
+    rotateFiles cfg f j = if j = 0 then none else if j ≤ cfg.maxBackups then f (j - 1) else f j := by
+  rw [rotateFiles_eq_shift]; rfl
+
+/-! ## one Write -/
+
+/-- functional specification of `Write` on a state in step: either the bytes are appended to the current file, or
+    (current file not empty and `size + len > MaxSize`) the directory is shifted once and the bytes form the whole new
+    current file.  In both cases the handle is open and the size counter is the length of the current file. -/
+theorem write_functional (cfg : Cfg) (s : St) (b : Bytes) (ht : Track s) :
+    write cfg s b =
+      if 0 < (content s.files 0).length ∧ (content s.files 0).length + b.length > cfg.maxSize
+      then { files := (shift cfg s.files).set 0 (some b), isOpen := true, size := b.length }
+      else { files := s.files.set 0 (some (content s.files 0 ++ b)), isOpen := true,
+             size := (content s.files 0 ++ b).length } :=
+  write_spec cfg s b ht
+
+/-- clause "having placed its bytes, whole and unsplit, in the current log file": after `Write(b)` the current file
+    ends with `b` (preceded by the old current content, or by nothing after a rotation), and every other file is a
+    file that existed before (unchanged or moved up by one index) — no byte of `b` goes anywhere else -/
+theorem write_whole (cfg : Cfg) (s : St) (b : Bytes) (ht : Track s) :
+    ∃ c, (write cfg s b).files 0 = some (c ++ b) ∧ (c = content s.files 0 ∨ c = []) ∧
+      ∀ j, j ≠ 0 → (write cfg s b).files j = s.files j ∨ (write cfg s b).files j = s.files (j - 1) := by
+  rw [write_spec cfg s b ht]
+  by_cases h : wouldRotate cfg s.files b
+  · rw [if_pos h]
+    refine ⟨[], by simp [Files.set], Or.inr rfl, ?_⟩
+    intro j hj
+    simp only [Files.set, hj, if_false, shift]
+    split
+    · exact Or.inr rfl
+    · exact Or.inl rfl
+  · rw [if_neg h]
+    refine ⟨content s.files 0, by simp [Files.set], Or.inl rfl, ?_⟩
+    intro j hj
+    simp [Files.set, hj]
+
+/-- clause "pre-existing log content is appended to rather than overwritten", first write of a new rotator on a
+    directory whose log file already holds `c`: if `c` is empty or `c ++ b` fits, the file becomes `c ++ b` and nothing
+    else changes; otherwise `c` is rotated out intact (it is backup 1 afterwards, when backups are kept at all) -/
+theorem preexisting_appended (cfg : Cfg) (f : Files) (c b : Bytes) (hc : f 0 = some c) :
+    (¬ (0 < c.length ∧ c.length + b.length > cfg.maxSize) →
+        (write cfg (fresh f) b).files = f.set 0 (some (c ++ b))) ∧
+    ((0 < c.length ∧ c.length + b.length > cfg.maxSize) →
+        (write cfg (fresh f) b).files 0 = some b ∧ (1 ≤ cfg.maxBackups → (write cfg (fresh f) b).files 1 = some c)) := by
+  have hcont : content (fresh f).files 0 = c := by simp [content, fresh, hc]
+  have hw : wouldRotate cfg (fresh f).files b ↔ (0 < c.length ∧ c.length + b.length > cfg.maxSize) := by
+    unfold wouldRotate; rw [hcont]
+  rw [write_spec cfg (fresh f) b (track_fresh f)]
+  constructor
+  · intro h; rw [if_neg (fun x => h (hw.1 x))]; simp only [hcont]; rfl
+  · intro h; rw [if_pos (hw.2 h)]
+    refine ⟨by simp [Files.set], ?_⟩
+    intro hm
+    simp [Files.set, shift, hm, fresh, hc]
+
+/-- pre-existing backups are never overwritten by a write that does not rotate, and a rotation only moves them up -/
+theorem preexisting_backups_kept (cfg : Cfg) (s : St) (b : Bytes) (ht : Track s) (j : Nat) (hj : j ≠ 0) :
+    (write cfg s b).files j = s.files j ∨
+      (rotates cfg s b = true ∧ j ≤ cfg.maxBackups ∧ (write cfg s b).files j = s.files (j - 1)) := by
+  rw [write_spec cfg s b ht]
+  by_cases h : wouldRotate cfg s.files b
+  · rw [if_pos h]
+    simp only [Files.set, hj, if_false, shift]
+    by_cases hm : j ≤ cfg.maxBackups
+    · right; exact ⟨(rotates_iff cfg s b ht).2 h, hm, by simp [hm]⟩
+    · left; simp [hm]
+  · rw [if_neg h]; left; simp [Files.set, hj]
+
+/-! ## the retained stream -/
+
+/-- clause "reading the retained files from the oldest backup to the current file yields a suffix of the concatenation
+    of everything written … with nothing duplicated, lost or reordered inside it": for every history (writes, Close,
+    re-open, Sync in any order) from any state, `initial retained content ++ all bytes written, in order` equals
+    `pre ++ retained files`, i.e. the retained files are literally a suffix of the stream (Appendix B: pre-existing
+    files count as the oldest part of the stream) -/
+theorem retained_is_suffix (cfg : Cfg) (s : St) (ops : List Op) :
+    ∃ pre, retained cfg s.files ++ (writesOf ops).flatten = pre ++ retained cfg (run cfg s ops).files :=
+  run_suffix cfg s ops
+
+/-- clause "(the whole stream until more than MaxBackups+1 files have been filled)": if at the start only the indexes
+    `0 … k` are occupied (`k+1` files filled so far) and the history rotates at most `MaxBackups − k` times — so that at
+    most `MaxBackups+1` files are filled in total — nothing at all has been dropped -/
+theorem retained_whole (cfg : Cfg) (s : St) (ops : List Op) (k : Nat) (ht : Track s)
+    (hk : ∀ i, k < i → i ≤ cfg.maxBackups → s.files i = none) (hr : k + rotations cfg s ops ≤ cfg.maxBackups) :
+    retained cfg (run cfg s ops).files = retained cfg s.files ++ (writesOf ops).flatten :=
+  run_whole cfg s ops k ht hk hr
+
+/-- the same for a new rotator on an empty directory: the retained files are exactly everything written as long as
+    the number of rotations does not exceed `MaxBackups` -/
+theorem retained_whole_fresh (cfg : Cfg) (ops : List Op)
+    (hr : rotations cfg (fresh fun _ => none) ops ≤ cfg.maxBackups) :
+    retained cfg (run cfg (fresh fun _ => none) ops).files = (writesOf ops).flatten := by
+  have := run_whole cfg (fresh fun _ => none) ops 0 (track_fresh _) (fun _ _ _ => rfl) (by omega)
+  rw [this]
+  have : retained cfg (fresh fun _ => none).files = [] := by
+    unfold retained
+    generalize cfg.maxBackups = m
+    induction m with
+    | zero => simp [retainedUpTo, content, fresh]
+    | succ k ih => simp [retainedUpTo, content, fresh] at ih ⊢; exact ih
+  rw [this]; rfl
+
+/-- one step of the above, explicit: a write that does not rotate appends to the retained stream; a write that rotates
+    drops exactly the oldest slot (`path-MaxBackups`, or the current file when no backups are kept) from its front -/
+theorem write_retained (cfg : Cfg) (s : St) (b : Bytes) (ht : Track s) :
+    (rotates cfg s b = false → retained cfg (write cfg s b).files = retained cfg s.files ++ b) ∧
+    (rotates cfg s b = true → retained cfg s.files ++ b =
+        (if cfg.maxBackups = 0 then retained cfg s.files else content s.files cfg.maxBackups)
+          ++ retained cfg (write cfg s b).files) := by
+  constructor
+  · intro h
+    apply write_retained_keep cfg s b ht
+    intro hw; rw [(rotates_iff cfg s b ht).2 hw] at h; cases h
+  · intro h; exact write_retained_rot cfg s b ht ((rotates_iff cfg s b ht).1 h)
+
+/-! ## size and count bounds -/
+
+/-- clause "no rotated file exceeds MaxSize unless a single write is itself larger": after any history every file in the
+    directory (current or backup) is at most `MaxSize` long, or is exactly one of the byte strings written (an over-long
+    record gets a file of its own), or is a file that was already there at the start, unchanged -/
+theorem size_bound (cfg : Cfg) (s : St) (ops : List Op) (ht : Track s) (i : Nat) (f : Bytes)
+    (h : (run cfg s ops).files i = some f) :
+    f.length ≤ cfg.maxSize ∨ (∃ w ∈ writesOf ops, f = w) ∨ (∃ j, s.files j = some f) :=
+  run_pred cfg s ops ht (fun f => f.length ≤ cfg.maxSize ∨ (∃ w ∈ writesOf ops, f = w) ∨ (∃ j, s.files j = some f))
+    (fun _ hf => Or.inl hf) (fun w hw => Or.inr (Or.inl ⟨w, hw, rfl⟩)) (fun j _ hf => Or.inr (Or.inr ⟨j, hf⟩)) i f h
+
+/-- the current file right after `Write(b)` exists and is no longer than `max(MaxSize, len b)` -/
+theorem current_size_bound (cfg : Cfg) (s : St) (b : Bytes) (ht : Track s) :
+    ∃ c, (write cfg s b).files 0 = some c ∧ c.length ≤ max cfg.maxSize b.length :=
+  (write_size cfg s b ht).2
+
+/-- clause "at most MaxBackups backups exist", frame form: no history ever creates, removes or changes a file with an
+    index above `MaxBackups` -/
+theorem backup_frame (cfg : Cfg) (s : St) (ops : List Op) (j : Nat) (hj : cfg.maxBackups < j) :
+    (run cfg s ops).files j = s.files j :=
+  run_frame cfg s ops j hj
+
+/-- clause "at most MaxBackups backups exist", counting form: if no file beyond `MaxBackups` was there at the start,
+    every file that exists after any history has an index `≤ MaxBackups`, so the backups (indexes ≥ 1) are among
+    `1 … MaxBackups` -/
+theorem backup_count (cfg : Cfg) (s : St) (ops : List Op) (h0 : ∀ j, cfg.maxBackups < j → s.files j = none)
+    (j : Nat) (hj : (run cfg s ops).files j ≠ none) : j ≤ cfg.maxBackups := by
+  apply Decidable.byContradiction
+  intro hn
+  have hlt : cfg.maxBackups < j := by omega
+  exact hj (by rw [run_frame cfg s ops j hlt]; exact h0 j hlt)
+
+/-! ## Close and re-open -/
+
+/-- `Close` is idempotent and never touches the directory; a restart (`New` on the same path) neither -/
+theorem close_laws (s : St) :
+    close (close s) = close s ∧ (close s).files = s.files ∧ (reopen s).files = s.files ∧ reopen (reopen s) = reopen s :=
+  ⟨rfl, rfl, rfl, rfl⟩
+
+/-- the next `Write` after a `Close` re-opens with the size taken from the file: it behaves exactly as if the rotator
+    had never been closed — same directory, same handle state, same counter -/
+theorem close_then_write (cfg : Cfg) (s : St) (b : Bytes) (ht : Track s) : write cfg (close s) b = write cfg s b :=
+  write_congr cfg (close s) s b (track_close s) ht rfl
+
+/-- the same for a new rotator on the same path (process restart) -/
+theorem reopen_then_write (cfg : Cfg) (s : St) (b : Bytes) (ht : Track s) : write cfg (reopen s) b = write cfg s b :=
+  write_congr cfg (reopen s) s b (track_reopen s) ht rfl
+
+/-- quantifier "Close/re-open at any point": the directory after a history is the directory after its writes alone —
+    wherever `Close`, re-open and `Sync` are inserted -/
+theorem close_reopen_invisible (cfg : Cfg) (s : St) (ops : List Op) (ht : Track s) :
+    (run cfg s ops).files = (run cfg s (ops.filter Op.isWrite)).files :=
+  run_files_filter cfg s s ops ht ht rfl
+
+/-! ## New and its options -/
+
+/-- without options the rotator has the default limits read from options.go (`Facts.rotation_*`) and the default path -/
+theorem new_defaults :
+    Rot.new [] = some { cfg := { maxSize := Facts.rotation_DefaultMaxSize.toNat,
+                                 maxBackups := Facts.rotation_DefaultMaxBackups.toNat }, pathSet := false } := rfl
+
+/-- mechanism "option validation": `New` fails exactly when some option is `Path("")`, wherever it stands -/
+theorem new_fails_iff (opts : List Opt) : Rot.new opts = none ↔ Opt.path "" ∈ opts :=
+  new_foldl_none_iff opts defaults
+
+/-! ## the interpreter's representation -/
+
+/-- the driver keeps the directory as an array of `n` entries between steps; this loses nothing below `n` (and the
+    driver's `n` exceeds `MaxBackups` and every pre-existing index, above which `backup_frame` says nothing changes) -/
+theorem array_roundtrip (f : Files) (n j : Nat) (hj : j < n) : ofArray (toArray f n) j = f j := by
+  rw [ofArray_toArray]; simp [hj]
+
+/-! ## non-vacuity -/
+
+/-- `Track` is satisfiable by more than fresh states, and the hypotheses of `retained_whole` are met by a concrete
+    history with a rotation: MaxSize 2, MaxBackups 1, writes `[1,1]`, `[2]` — one rotation, nothing lost -/
+example :
+    let cfg : Cfg := { maxSize := 2, maxBackups := 1 }
+    let ops := [Op.write [1, 1], Op.close, Op.write [2]]
+    Track (run cfg (fresh fun _ => none) ops) ∧ rotations cfg (fresh fun _ => none) ops = 1 ∧
+    retained cfg (run cfg (fresh fun _ => none) ops).files = [1, 1, 2] := by
+  refine ⟨reachable_in_step _ _ _, ?_, ?_⟩
+  · simp [rotations, rotates, writeStep, openIfNeeded, fresh, Files.set, Step.isDone, write, close, apply, rotate]
+  · simp [retained, retainedUpTo, content, run, apply, write, writeStep, openIfNeeded, fresh, Files.set, close, rotate,
+      rotateFiles, renameChain, mv]
+
+/-- the rotation branch of `preexisting_appended` is reachable: a 3-byte file, MaxSize 3, one more byte -/
+example : (write { maxSize := 3, maxBackups := 1 } (fresh fun j => if j = 0 then some [9, 9, 9] else none) [1]).files 1
+    = some [9, 9, 9] := by
+  simp [write, writeStep, openIfNeeded, fresh, Files.set, rotate, rotateFiles, renameChain, mv]
+
 end C12
